@@ -68,6 +68,11 @@ def run(facts, chk, tier, only=None):
                 if s.k == 'assign' and s.rv.k == 'ref' and s.rv.j['bk'] == 'mut' and s.rv.place.local == 1:
                     writes.append(blk.idx)
         out = []
+        if not res:
+            # the comparisons may live in a helper called before any write: analyse it with the actual arguments
+            hres = helper_guards(b, eb, writes)
+            if hres is not None:
+                return hres
         for which in ('k', 'rc'):
             if which not in res:
                 out.append((which, False, 'comparison of %s not found' % which))
@@ -77,6 +82,50 @@ def run(facts, chk, tier, only=None):
             dom = all(b.dominates(g, w) and w not in reachable_without(b, ne) for w in writes)
             out.append((which, div and dom and bool(writes), 'mismatch edge diverges=%s; dominates all %d writes to self=%s' % (div, len(writes), dom)))
         return out
+    def helper_guards(b, eb, writes):
+        """compatibility checks factored into a crate helper `h(&self, x, y)`: inside h each parameter compared with a
+        self field must diverge on mismatch; at the call site the actual for that parameter must be the *other*
+        dictionary's value of the same field"""
+        cands = [(bb, t) for bb, t in b.calls() if t.callee.krate == 'ska' and facts.has_fn(t.callee.name or '') and
+                 all(b.dominates(bb, w) for w in writes) and t.args and show(eb.operand(t.args[0])).lstrip('&*') == 'self']
+        for bb, t in cands:
+            h = facts.fn(t.callee.name)
+            ebh = ExprBuilder(h)
+            found = {}
+            for blk in h.blocks:
+                if blk.idx not in h.live_blocks() or blk.term.k != 'switch':
+                    continue
+                e = ebh.operand(blk.term.discr)
+                if e[0] != 'bin' or e[1] not in ('Ne', 'Eq'):
+                    continue
+                flds = [x for x in subexprs(e) if x[0] == 'field' and x[1] == ('deref', ('arg', 1, 'self'))]
+                args = [x for x in subexprs(e) if x[0] == 'arg' and x[1] >= 2]
+                if len(flds) != 1 or len(args) != 1:
+                    continue
+                which = 'k' if flds[0][2] == kf else ('rc' if flds[0][2] == rf else None)
+                if which is None:
+                    continue
+                tt = blk.term
+                ne_edge = tt.otherwise if e[1] == 'Ne' else next(tg for v, tg in tt.targets if v == 0)
+                found[which] = (args[0][1], not can_return_from(h, ne_edge))
+            if not found:
+                continue
+            out = []
+            for which, fld in (('k', kf), ('rc', rf)):
+                if which not in found:
+                    out.append((which, False, 'helper %s does not compare %s' % (h.name, which)))
+                    continue
+                pi, div = found[which]
+                actual = eb.operand(t.args[pi - 1])
+                sa = show(actual)
+                from_other = 'other' in sa and 'self' not in sa
+                right_field = any(x[0] == 'field' and x[2] == fld for x in subexprs(actual)) or \
+                    any(x[0] == 'call' and x[1].split('::')[-1] == ('kmer_len' if which == 'k' else 'rc') for x in subexprs(actual))
+                out.append((which, div and from_other and right_field,
+                            'helper %s(%s): diverges on mismatch=%s; actual argument is the other dictionary\'s %s=%s (%s)' % (h.name.split('::')[-1], which, div, which, from_other and right_field, sa)))
+            return out
+        return None
+
     for fn in ('extend', 'merge', 'append'):
         r = chk.guard('C07.guard', 'C07.guard:%s' % fn, lambda fn=fn: guards(MSD + '::' + fn))
         if r is None:
